@@ -20,7 +20,11 @@ RECURSIVE AggFrom(_, _, _, _)
 AggFrom(s, k, hi, acc) ==
   IF k > hi THEN acc
   ELSE AggFrom(s, k + 1, hi, <<acc[1], acc[2], s[k][3], CMax(acc[4], s[k][4]), CMin(acc[5], s[k][5]), acc[6] + s[k][6]>>)
-Agg(s, lo, hi) == AggFrom(s, lo + 1, hi, s[lo])
+\* divide and conquer above 32 rows: the recursion depth stays logarithmic (a 1W window has 10 080 rows)
+Join(a, b) == <<a[1], a[2], b[3], CMax(a[4], b[4]), CMin(a[5], b[5]), a[6] + b[6]>>
+RECURSIVE Agg(_, _, _)
+Agg(s, lo, hi) == IF hi - lo < 32 THEN AggFrom(s, lo + 1, hi, s[lo])
+                  ELSE LET mid == (lo + hi) \div 2 IN Join(Agg(s, lo, mid), Agg(s, mid + 1, hi))
 AggAll(s) == Agg(s, 1, Len(s))
 
 \* the documented normalisation of a gapping open (and the matching high/low bound) to the previous close
